@@ -638,7 +638,7 @@ pub fn soak_scenario(spec: &SoloSpec, seed: u64, k: u64) -> Scenario {
 /// seeded search: candidates are probed cheaply (800 opcodes) and ranked per dimension by what the
 /// reference machine R3 measures; the best ones are then run at scale.
 pub fn deep_count(spec: &SoloSpec, tier: Tier) -> u64 {
-    deep_base_count(spec, tier) + wide_count(spec, tier) + tail_variant_count(spec, tier) + sandwich_count(spec, tier) + pairdeep_count(spec, tier) + pairflat_count(spec, tier) + edge_count(spec, tier)
+    deep_base_count(spec, tier) + wide_count(spec, tier) + tail_variant_count(spec, tier) + sandwich_count(spec, tier) + pairdeep_count(spec, tier) + pairflat_count(spec, tier) + bigcontainer_count(spec, tier) + edge_count(spec, tier)
 }
 
 /// boundary-directed runs (threshold runs, argument sweeps, table sweeps): see edge.rs
@@ -703,6 +703,41 @@ pub fn pairflat_count(spec: &SoloSpec, tier: Tier) -> u64 {
         (_, Tier::Quick) => 4,
         (_, Tier::Thorough) => 24,
     }
+}
+
+/// "large container x every next opcode": MARK, k plain pushes, one collecting opcode (LIST, TUPLE,
+/// DICT, FROZENSET) for k just past 2^8, 2^10 and 2^12 (the generator's own cost is quadratic in the
+/// stack depth, 2^16 members are left to the beyond-2^16 runs), then every next choice byte 0..63 executed
+/// with that container on top - size guards of single opcodes (copy limits, one-byte counts, caps
+/// on what may be duplicated or memoised) sit here
+pub fn bigcontainer_count(spec: &SoloSpec, tier: Tier) -> u64 {
+    match (spec.prop, tier) {
+        ("C14", _) | ("C15", _) | ("C16", _) | ("C08", _) => 0,
+        (_, Tier::Quick) => (BIG_BUILDERS.len() * 3 * 64) as u64,
+        (_, Tier::Thorough) => (BIG_BUILDERS.len() * 3 * 64 * 3) as u64,
+    }
+}
+
+const BIG_BUILDERS: [(&str, u8, usize); 5] = [("LIST", 0, 1), ("TUPLE", 2, 1), ("DICT", 0, 2), ("FROZENSET", 4, 1), ("LIST", 5, 1)];
+const BIG_SIZES: [usize; 3] = [260, 1_030, 4_100];
+
+fn bigcontainer_scenario(k: u64) -> Scenario {
+    let b = (k % 64) as u8;
+    let r = (k / 64) as usize;
+    let size = BIG_SIZES[r % 3];
+    let (builder, p, per) = BIG_BUILDERS[(r / 3) % BIG_BUILDERS.len()];
+    // thorough: the same with the other plain pushes
+    let push = ["NONE", "EMPTY_TUPLE", "EMPTY_LIST"][(r / (3 * BIG_BUILDERS.len())) % 3];
+    let ops = vec!["MARK".to_string(), format!("{}*{}", push, size * per), builder.to_string()];
+    let n = 2 + size * per + 1;
+    let mut sc = Scenario::solo(tree_config(p, n), Entropy::Bytes(vec![]));
+    sc.steer = Some(desc::Steer { ops, tail: Some(b), free: None });
+    sc.faults.push(desc::Fault {
+        kind: "steered",
+        at: 0,
+        detail: format!("MARK, {} x {}, {} (a container of {} members on top), then choice byte 0x{:02x}", size * per, push, builder, size, b),
+    });
+    sc
 }
 
 fn pairflat_scenario(seed: u64, k: u64) -> Scenario {
@@ -1743,8 +1778,12 @@ pub fn deep_scenario(spec: &SoloSpec, seed: u64, tier: Tier, k: u64) -> Scenario
     if k >= base + wide + tails + sandwich + pairdeep && k < base + wide + tails + sandwich + pairdeep + pairflat {
         return pairflat_scenario(seed, k - base - wide - tails - sandwich - pairdeep);
     }
-    if k >= base + wide + tails + sandwich + pairdeep + pairflat {
-        let e = k - base - wide - tails - sandwich - pairdeep - pairflat;
+    let bigc = bigcontainer_count(spec, tier);
+    if k >= base + wide + tails + sandwich + pairdeep + pairflat && k < base + wide + tails + sandwich + pairdeep + pairflat + bigc {
+        return bigcontainer_scenario(k - base - wide - tails - sandwich - pairdeep - pairflat);
+    }
+    if k >= base + wide + tails + sandwich + pairdeep + pairflat + bigc {
+        let e = k - base - wide - tails - sandwich - pairdeep - pairflat - bigc;
         let thr = crate::edge::threshold_count(spec, tier);
         let args = crate::edge::argsweep_count(spec, tier);
         return if e < thr {
